@@ -348,6 +348,7 @@ func c03Worker(c *core.Ctx) {
 			}
 		}
 		graphs(func(g gcase) {
+			wl.Tick()
 			var reqs [][]int
 			if g.N <= 4 {
 				reqs = c03Requests(g.N, r)
